@@ -25,7 +25,7 @@ if os.path.exists(root + '/MATRIX.tsv'):
 head = subprocess.run(['git', '-C', '/repo', 'log', '--format=%h', '-1'], capture_output=True, text=True).stdout.strip()
 
 ROUND_NOTE = {
-    '': 'round 1', 'r2': 'round 2', 'r3': 'round 3', 'r4': 'round 4', 'r5': 'round 5', 'r6': 'round 6', 'r7': 'round 7',
+    '': 'round 1', 'r2': 'round 2', 'r3': 'round 3', 'r4': 'round 4', 'r5': 'round 5', 'r6': 'round 6', 'r7': 'round 7', 'r8': 'round 8', 'r9': 'round 9',
 }
 summary = []
 for d in sorted(glob.glob(root + '/C*-*/')):
